@@ -372,7 +372,7 @@ class Check(object):
 
 
 def run(ctx):
-    n = {'quick': 4000, 'thorough': 40000}[ctx.tier]
+    n = {'quick': 4000, 'thorough': 80000}[ctx.tier]
     explore(ctx, Check(), n, 'cache')
 
 
